@@ -1086,6 +1086,168 @@ fn stub_body(c: &StubCase, rec: &mut Rec) -> CaseResult {
 
 // ---------------------------------------------------------------------------------------------
 
+// ---------------------------------------------------------------------------------------------
+// C15 through the recursor (crates/resolver/src/recursor/handle.rs sits on the same response
+// cache): one query is resolved on an honest simulated internet, virtual time moves on, and the
+// query is resolved again. Every record of the simulated zones has TTL 3600 and the SOA MINIMUM is
+// 300. What the second resolution returns without having asked anybody comes from a cache, and
+// was stored no later than the end of the first resolution: its TTLs must have counted down by
+// the whole seconds in between, and nothing may come out of a cache after its TTL has run out.
+
+#[derive(Clone, Debug, Serialize, Deserialize)]
+pub struct ExpiryCase {
+    pub base: NetCase,
+    /// pause between the two resolutions, milliseconds
+    pub pause_ms: u64,
+}
+
+pub fn expiry_case() -> impl Strategy<Value = ExpiryCase> {
+    let t = TTL as u64 * 1000;
+    let pause = prop_oneof![
+        2 => 0u64..3_000,
+        2 => 3_000u64..290_000,
+        2 => 295_000u64..305_000,
+        2 => 305_000u64..(t - 5_000),
+        3 => (t - 3_000)..(t + 3_000),
+        2 => (t + 3_000)..(3 * t),
+    ];
+    (internet::net_case(), pause).prop_map(|(mut base, pause_ms)| {
+        // honest servers only, default limits: this sub-property is about time, not about poison
+        base.cfg.deny_server.clear();
+        base.cfg.allow_server.clear();
+        base.cfg.deny_answers.clear();
+        base.cfg.allow_answers.clear();
+        base.cfg.recursion_limit = base.cfg.recursion_limit.max(24);
+        base.cfg.ns_recursion_limit = base.cfg.ns_recursion_limit.max(24);
+        ExpiryCase { base, pause_ms }
+    })
+}
+
+pub fn expiry_body(c: &ExpiryCase, rec: &mut Rec) -> CaseResult {
+    let mut w = build_world(&c.base.net);
+    for s in w.servers.iter_mut() {
+        s.poison.clear();
+    }
+    let world = Rc::new(w);
+    let w = &*world;
+    let roots: Vec<IpAddr> = w.root_ips().into_iter().map(|ip| IpAddr::V4(Ipv4Addr::from(ip))).collect();
+    let cfg = &c.base.cfg;
+    let opts = RecursorOptions {
+        recursion_limit: cfg.recursion_limit,
+        ns_recursion_limit: cfg.ns_recursion_limit,
+        qname_minimization: if cfg.relaxed_qmin { QNameMinimization::Relaxed } else { QNameMinimization::Strict },
+        case_randomization: cfg.case_randomization,
+        ..RecursorOptions::default()
+    };
+    let _det = crate::detrand::DetRand::start(0xC15_0000 + c.base.os_seed);
+    let mut sim = Sim::new(1_700_000_000);
+    let net = Rc::new(Net {
+        world: world.clone(),
+        latency_ms: c.base.latency_ms as u64,
+        st: RefCell::new(NetState::default()),
+    });
+    sim.set_net(net.clone());
+    let recursor = match Recursor::with_options(&roots, opts, SimRt) {
+        Ok(r) => Rc::new(r),
+        Err(e) => {
+            rec.discard(format!("recursor-construction-failed: {e}"));
+            return Ok(());
+        }
+    };
+    let q = &c.base.queries[0];
+    let qname = query_name(w, &q.target);
+    let qtype = QTYPES[q.qt as usize % QTYPES.len()];
+    let run = |sim: &mut Sim| -> Result<(Result<Message, RecursorError>, usize), Fail> {
+        let start = net.st.borrow().log.len();
+        let (r, query) = (recursor.clone(), Query::new(name_of(&qname), qtype));
+        let res = match sim.run(async move { r.resolve(query, Instant::now(), false).await }, EVENT_BUDGET) {
+            Ok(r) => r,
+            Err(e) => return Err(Fail::new("harness-resolve-did-not-finish", format!("{qname} {qtype}: {e:?}"))),
+        };
+        if let Some(e) = net.st.borrow_mut().harness_err.take() {
+            return Err(Fail::new("harness-error", format!("simulated network: {e}")));
+        }
+        let n = net.st.borrow().log.len() - start;
+        Ok((res, n))
+    };
+    let ttls = |res: &Result<Message, RecursorError>| -> Vec<(String, u32)> {
+        match res {
+            Ok(m) => m.answers.iter().map(|r| (format!("{} {}", r.name, r.record_type()), r.ttl)).collect(),
+            _ => vec![],
+        }
+    };
+    let (first, n1) = run(&mut sim)?;
+    let t1 = crate::sim::now_nanos();
+    sim.advance(Duration::from_millis(c.pause_ms));
+    let t2 = crate::sim::now_nanos();
+    let (second, n2) = run(&mut sim)?;
+    // whole seconds that have certainly passed since anything in a cache was stored
+    let elapsed = ((t2 - t1) / 1_000_000_000) as u32;
+    let (_, kind1) = returned_records(&first);
+    let (_, kind2) = returned_records(&second);
+    rec.class(format!("first={kind1}"));
+    rec.class(format!("second={kind2}"));
+    rec.class(if n2 == 0 { "second-resolution:from-cache-only" } else { "second-resolution:asked-upstream" });
+    rec.class(match c.pause_ms / 1000 {
+        0..=2 => "pause:<3s",
+        3..=294 => "pause:<negative-ttl",
+        295..=304 => "pause:around-negative-ttl(300s)",
+        305..=3596 => "pause:<ttl",
+        3597..=3602 => "pause:around-ttl(3600s)",
+        _ => "pause:>ttl",
+    });
+    if n1 > 0 {
+        rec.nontrivial();
+    }
+    let ctx = || {
+        format!(
+            "{qname} {qtype}: first resolution {kind1} ({n1} datagrams, answers {:?}), {} ms later {kind2} ({n2} datagrams, answers {:?})",
+            ttls(&first),
+            c.pause_ms,
+            ttls(&second)
+        )
+    };
+    if rec.wants_note() {
+        rec.note(ctx());
+    }
+    for (what, res) in [("first", &first), ("second", &second)] {
+        for (r, ttl) in ttls(res) {
+            vensure!(ttl <= TTL, "recursor-reports-ttl-above-the-authoritative-one", "{what} resolution: {r} has TTL {ttl}, the zone says {TTL}; {}", ctx());
+        }
+    }
+    if n2 == 0 {
+        if !ttls(&second).is_empty() {
+            rec.class("positive-answer-from-cache-only");
+        }
+        for (r, ttl) in ttls(&second) {
+            vensure!(
+                elapsed <= TTL,
+                "recursor-serves-record-past-its-ttl",
+                "{r} was returned without any upstream query {elapsed} s after it can have been stored at the latest (TTL {TTL}); {}",
+                ctx()
+            );
+            vensure!(
+                ttl <= TTL - elapsed,
+                "recursor-cached-ttl-not-counted-down",
+                "{r} came out of the cache with TTL {ttl} although at least {elapsed} whole seconds have passed since it was stored with at most {TTL}; {}",
+                ctx()
+            );
+        }
+        if matches!(kind2, "err-nxdomain" | "err-nodata" | "err-net-norecords") && n1 > 0 {
+            // RFC 2308 5: negative TTL = min(SOA TTL, SOA MINIMUM) = 300 here; nothing in the
+            // default configuration raises it
+            rec.class("negative-answer-from-cache-only");
+            vensure!(
+                elapsed <= 300,
+                "recursor-serves-negative-answer-past-its-negative-ttl",
+                "a negative answer was returned without any upstream query {elapsed} s after it was stored (SOA TTL {TTL}, MINIMUM 300); {}",
+                ctx()
+            );
+        }
+    }
+    Ok(())
+}
+
 pub fn check() -> Option<Check> {
     // ~0.15 ms per case on 16 threads: quick ~15 s + ~5 s, thorough ~7 min + ~1.5 min
     let recursor = prop_hang("recursor", 200_000, 3_000_000, Duration::from_secs(60), |_tier| internet::net_case(), net_body);
